@@ -29,6 +29,10 @@ META = {
         "of the README; with another ClockRate the init's time scale and the sample times disagree (outside the generator)",
         "histories contain no unit the muxer drops in mid-stream (H264 access units without slices, units before -10 s); streams are "
         "3-7 s of media, segments 0.5-1 s (one pair in eight 0.1-0.4 s: these rounded to TARGETDURATION:0 before fix 69594d6 and play now)",
+        "a client whose FIRST downloaded body carries no data of a track cannot start (MPEG-TS: audio configuration unknown, finding "
+        "C09:mpegts:tracks:not-reported:first-segment-without-data-of:*; fMP4 rendition playlist: no base time, finding "
+        "C09:*:client-abort:first-body-without-tracks:rendition-playlist): both signatures are raised only after the cause was verified "
+        "on the bytes the transport served",
         "AbsoluteTime is compared with the NTP written with the unit itself: the harness writes ntp = base + dts/rate for every unit, "
         "so this equals 'NTP of the first unit of the segment + DTS distance' for any anchor; tolerance 1 ms + 2 ticks (+0.32 ms LL)",
     ],
